@@ -34,8 +34,10 @@ for m in muts:
             cur = ln[3:].split(":")[0]
             if "ERROR" in ln:
                 errors.append(ln[:200])
-        elif ln.strip().startswith(("failed", "discharged/failed")) and "CANARY" not in ln:
+        elif "CANARY" not in ln and ln.startswith("   ") and "failed" in ln.split()[0]:
             failed.append(cur + "::" + ln.split()[1])
+        elif "CANARY" not in ln and ln.startswith("   ") and ("undecided" in ln.split()[0] or "error" in ln.split()[0]):
+            errors.append("undecided " + cur + "::" + ln.split()[1])
     shutil.rmtree(d, ignore_errors=True)
     if m["harmless"]:
         ok = not failed and not errors
